@@ -41,7 +41,7 @@ def guards_worker(case):
     EE.print = models.noprint
     EE.np = models.NpProxy(dict(zeros=models.zeros_model))
     gamma = slsym.curve_pieces(curve)
-    cells = slsym.space_leaves(gamma, 1)
+    cells = slsym.space_leaves(gamma, 2)
     eng = Engine(timeout_ms=30000)
     res = dict(stats=None, violations=[], inconclusive=[], samples=[], functions=[], evaluations=0, nontrivial=0)
     fn_names = dict(bilform='src/single_layer.py:SingleLayerOperator.bilform', col='src/single_layer.py:MP_SL_matrix_col',
@@ -51,17 +51,21 @@ def guards_worker(case):
                     residual='src/error_estimator.py:ErrorEstimator.residual')
     res['functions'] = [fn_names[which]]
     # space pairs: same cell, neighbour, far (concrete); time symbolic
-    npairs = [(0, 0), (0, 1), (1, 0), (0, len(cells) - 1), (len(cells) - 1, 0), (0, len(cells) // 2)]
+    npairs = [(0, 0), (0, 1), (1, 0), (0, len(cells) - 1), (len(cells) - 1, 0), (0, len(cells) // 2), (1, 2), (2, 1)]
     npairs = sorted(set(npairs))
 
+    cur = dict(i_test=0, i_trial=0)
+
     def violation(sig, what, vals):
-        rp = dict(kind='guard', curve=curve, which=which, values={k: str(v) for k, v in vals.items() if v is not None})
+        rp = dict(kind='guard', curve=curve, which=which, i_test=cur['i_test'], i_trial=cur['i_trial'],
+                  values={k: str(v) for k, v in vals.items() if v is not None})
         res['violations'].append(dict(signature='guard:%s:%s' % (which, sig), what='%s [%s on %s, %s]' %
                                       (what, which, curve, rp['values']), replay=rp, reproduced=replay(rp)))
 
     for (i_test, i_trial) in npairs:
         if which in ('potential', 'evaluate', 'evaluate_exact', 'residual') and i_test != 0:
             continue
+        cur['i_test'], cur['i_trial'] = i_test, i_trial
 
         def body():
             a, b, c, d = eng.reals('a b c d')
@@ -69,7 +73,9 @@ def guards_worker(case):
             eng.assume(c < d)
             xt = cells[i_trial]
             trial = slsym.Elem(c, d, xt[0], xt[1], xt[2], 'trial')
-            pw_exact = (which == 'bilform' and curve != 'Circle' and i_test % 2 == 1)
+            # both evaluation paths: the closed-form path (real closed forms) on same-side pairs of polygons
+            same_side = curve != 'Circle' and i_test // 2 == i_trial // 2
+            pw_exact = which == 'bilform' and same_side
             op = make_op(SL, gamma, 1, pw_exact=pw_exact)
             op._init_elems([trial])
             calls = []
@@ -79,7 +85,6 @@ def guards_worker(case):
                 # the value of the space integration is irrelevant for the guard: uninterpreted
                 setattr(op, '_SingleLayerOperator__integrate',
                         lambda f, p, q, r, s: (calls.append(1), eng.apply('I', SR.lift(p), SR.lift(r)))[1])
-                SL.spacetime_integrated_kernel = lambda *args: (calls.append(1), eng.apply('Ix', *[SR.lift(v) for v in args[:4]]))[1]
                 if which == 'bilform':
                     val = op.bilform(trial, test)
                     acausal = z3bool(b <= c)
@@ -166,17 +171,20 @@ def replay(rp):
         if not (a < b and c < d):
             return False
         gamma = slsym.curve_pieces(rp['curve'])
-        cells = slsym.space_leaves(gamma, 1)
+        cells = slsym.space_leaves(gamma, 2)
+        it, ir = rp.get('i_test', 0), rp.get('i_trial', 1)
+        same_side = rp['curve'] != 'Circle' and it // 2 == ir // 2
         with slsym.unpatched():
-            trial = slsym.Elem(c, d, cells[1][0], cells[1][1], cells[1][2])
-            test = slsym.Elem(a, b, cells[0][0], cells[0][1], cells[0][2])
-            op = SL.SingleLayerOperator(slsym.FakeMesh(gamma), quad_order=4)
+            trial = slsym.Elem(c, d, cells[ir][0], cells[ir][1], cells[ir][2])
+            test = slsym.Elem(a, b, cells[it][0], cells[it][1], cells[it][2])
+            op = SL.SingleLayerOperator(slsym.FakeMesh(gamma), quad_order=4,
+                                        pw_exact=(rp['which'] == 'bilform' and same_side))
             op._init_elems([trial])
             which = rp['which']
             try:
                 if which == 'bilform':
                     v = op.bilform(trial, test)
-                    return (b <= c) != (isinstance(v, (int, float)) and v == 0)
+                    return (b <= c) != (isinstance(v, (int, float)) and not isinstance(v, bool) and v == 0)
                 if which == 'col':
                     SL.__dict__['__SL'] = op
                     SL.__dict__['__elems_test'] = [test]
@@ -187,10 +195,10 @@ def replay(rp):
                 if which == 'potential':
                     v = op.potential(trial, t, np.array([[1 / 3], [1 / 5]]))
                 elif which == 'evaluate':
-                    xh = cells[0][0] + (cells[0][1] - cells[0][0]) / 3
+                    xh = cells[it][0] + (cells[it][1] - cells[it][0]) / 3
                     v = op.evaluate(trial, t, xh, gamma.eval(xh))
                 elif which == 'evaluate_exact':
-                    xh = cells[0][0] + (cells[0][1] - cells[0][0]) / 3
+                    xh = cells[it][0] + (cells[it][1] - cells[it][0]) / 3
                     v = op.evaluate_exact(trial, t, xh)
                 else:
                     return True
